@@ -6,4 +6,6 @@ let () = Driver.main [
   { Driver.name = "pn"; run = pn_run; judge = pn_judge };
   { Driver.name = "tparams"; run = tparams_run; judge = tparams_judge };
   { Driver.name = "tparams_total"; run = tparams_total_run; judge = tparams_total_judge };
+  { Driver.name = "pnx"; run = pnx_run; judge = pnx_judge };
+  { Driver.name = "fit"; run = fit_run; judge = fit_judge };
 ]
